@@ -24,7 +24,7 @@ variable {α : Type} [DecidableEq α]
 /-- **C07_refines.**  One `TraitSet` method call yields the same members, the
 same return value and on failure the same exception class as the builtin set on
 the validated items.  For `^=` (set operand) and `symmetric_difference_update`
-this needs the validated new items to be absent from the set (finding F17: the
+this needs the validated new items to be absent from the set (finding F24: the
 code tests containment on the raw items); every other operation needs no
 hypothesis. -/
 theorem C07_refines (v : Callback α α) (s : PSet α) (op : Op α) (h : SymHyp v s op) :
@@ -51,7 +51,7 @@ theorem C07_refines_sym_identity (s : PSet α) (xs : List α) :
     (rw [hid] at hws; cases hws
      exact (PSet.mem_diff.mp hy).2 ∘ fun hs => PSet.mem_inter.mpr ⟨hs, (PSet.mem_diff.mp hy).1⟩)
 
-/-- **Negation witness (F17).**  `TraitSet({3}, item_validator=int) ^= {'3'}`:
+/-- **Negation witness (F24).**  `TraitSet({3}, item_validator=int) ^= {'3'}`:
 the model (like the code) leaves `{3}` and notifies nobody, the builtin set on
 the validated operand `{3}` removes 3.  So the hypothesis of `C07_refines`
 cannot be dropped. -/
@@ -71,10 +71,10 @@ theorem C07_refines_full_fails : ¬ C07RefinesFull Atom := by
   intro h
   exact C07_refines_fails_at (h _ _ _ (by decide))
 
-/-- What the model computes on the F17 input and on the input the test suite
+/-- What the model computes on the F24 input and on the input the test suite
 pins (`test_ixor_validator_args_with_added`: `{'1','2','3'} ^= {'2', 3, 4}` under
 `str`), replayed on the real code by the oracle. -/
-theorem C07_F17_model_behaviour :
+theorem C07_F24_model_behaviour :
     TraitSet.step Atom.intV [Atom.int 3] (.ixor true [Atom.str 3]) = .ok { items := [Atom.int 3] } ∧
     TraitSet.step Atom.strV [Atom.str 1, Atom.str 2, Atom.str 3] (.ixor true [Atom.str 2, Atom.int 3, Atom.int 4]) =
       .ok { items := [Atom.str 1, Atom.str 3, Atom.str 4],
@@ -245,7 +245,7 @@ theorem members_valid_init (v : Callback α α) (xs : List α) (s : PSet α)
 
 /-- **C07_copy.**  `copy.copy` and a pickle round trip always, and
 `copy.deepcopy` whenever the validator accepts the members unchanged (every
-idempotent validator does; finding F18 otherwise), yield a `TraitSet` with equal
+idempotent validator does; finding F25 otherwise), yield a `TraitSet` with equal
 members, the same validator, no notifiers, which still rejects what the
 validator rejects. -/
 theorem C07_copy {N : Type} (k : CopyKind) (o : TSObj α N) (_hwf : WF o.items)
@@ -277,7 +277,7 @@ theorem C07_deepcopy_revalidates {N : Type} (o : TSObj α N) :
   simp only [TraitSet.copyOp, TraitSet.init]
   cases valAll o.validator 0 o.items <;> rfl
 
-/-- **Negation witness (F18).**  `copy.deepcopy(TraitSet([1], item_validator=lambda x: x + 1))`
+/-- **Negation witness (F25).**  `copy.deepcopy(TraitSet([1], item_validator=lambda x: x + 1))`
 (contents `{2}`) is `{3}`: the deep copy is not equal to the original, so the
 hypothesis of `C07_copy` for `deepcopy` cannot be dropped. -/
 theorem C07_copy_fails_at :
@@ -326,7 +326,7 @@ theorem C07_history (v : Callback α α) (ops : List (Op α)) (s : PSet α) (hwf
 history (members, return values, exception classes, step by step) equals — up
 to the order in which members are stored — the history of a builtin set `b`
 that starts equal and is driven by the validated operations, provided the
-symmetric-difference hypothesis (F17) holds at each step and `pop` is given the
+symmetric-difference hypothesis (F24) holds at each step and `pop` is given the
 member the implementation popped. -/
 theorem C07_history_refines (v : Callback α α) (ops : List (Op α)) (s b : PSet α) (hsb : Equiv s b)
     (hyp : SetAlongRun v (fun pre op => SymHyp v pre op ∧ GoodHint pre op) s ops) :
